@@ -2,6 +2,9 @@
 Theorems: Props/C17.lean (after config validation every loop bound derived from a NUMERIC field of the proof is a constant: <= 48
 query samples, <= 14 FRI rounds, coset loops <= 16, exponentiations <= 256 squarings, diluted product 15 steps; the Merkle walk
 makes <= |queue| + |auths| steps; all model functions are total; cost bound as far as proved — see the file).
+An INSTRUMENTED step-counting twin of the whole pipeline model (Proofs/Ticked*.lean: verify_ticked_erases, verify_ticks_le_cost,
+verify_ticks_bounded) proves ticks <= A_L + B_L * size(proof) once the configuration validates, and that the sampling loop alone is
+value-driven without validation.
 The model cannot exhibit wall time or the allocator: every case below is ALSO run in an isolated child process of the real verifier
 under a wall-clock limit and an address-space limit, and its time / peak RSS must stay within a fixed multiple of the honest run."""
 import copy, os, resource, subprocess, time
